@@ -255,7 +255,7 @@ EQ_FIELD_EXCEPTIONS = {
 
 
 def check(ctx, rep):
-    rep.rule('R11.a', 'hash-ordered iteration never reaches an order-sensitive consumer', floor=14)
+    rep.rule('R11.a', 'hash-ordered iteration never reaches an order-sensitive consumer', floor=8)
     rep.rule('R11.b', 'no library function of the runtime crates consults a clock, rand, thread identity, env or addresses', floor=5)
     rep.rule('R11.c', 'hand-written PartialEq/Hash impls read every field of the type (or the field is tabled)', floor=3)
     rep.rule('R11.d', 'interior-mutable statics are exactly the tabled ones', floor=2)
